@@ -242,7 +242,7 @@ impl<B: Be> File<B> {
         e["btr"] = json!(btr);
         e["anat"] = json!(anat);
         let target = if is_in_place(&call.op) { call.a } else { call.dst };
-        if e["status"] == "ok" && (e["kind"] == "m") && target >= 1 && target <= NREG && self.meta[target].kind == 1 {
+        if e["status"] == "ok" && (e["kind"] == "m" || e["kind"] == "v") && target >= 1 && target <= NREG && self.meta[target].kind != 0 {
             // provenance of the memory layout, over-approximated: a register is "tr" when it was made by
             // transpose or the column-major constructor, or computed from such a register
             let fresh = call.a == 0 && call.b == 0;
